@@ -538,6 +538,11 @@ func (fr *frame) binop(i *ssa.BinOp, bc string, st *state) {
 		exact = app("-", x, y)
 	case token.MUL:
 		exact = app("*", x, y)
+		_, c1 := i.X.(*ssa.Const)
+		_, c2 := i.Y.(*ssa.Const)
+		if !c1 && !c2 {
+			e.product(x, y)
+		}
 	case token.QUO:
 		fr.oblige("divzero", "div:"+fr.srcText(i.Pos()), bc, not(eq(y, "0")), i.Pos(), nil)
 		if isUnsigned(t) {
@@ -545,6 +550,13 @@ func (fr *frame) binop(i *ssa.BinOp, bc string, st *state) {
 			noWrap = true
 		} else {
 			exact = app("tdiv", x, y)
+		}
+		if _, isConst := i.Y.(*ssa.Const); !isConst {
+			// help the non-linear engines: Euclidean property of the quotient for non-negative operands
+			q := e.define("quo", "Int", exact)
+			e.product(q, y)
+			e.assume(implies(and(app(">=", x, "0"), app(">", y, "0")), and(app("<=", app("*", q, y), x), app("<", x, app("+", app("*", q, y), y)), app("<=", "0", q), app("<=", q, x))))
+			exact = q
 		}
 	case token.REM:
 		fr.oblige("divzero", "rem:"+fr.srcText(i.Pos()), bc, not(eq(y, "0")), i.Pos(), nil)
@@ -931,6 +943,38 @@ func (fr *frame) ret(i *ssa.Return, bc string, st *state) {
 		o := fr.oblige("ensures", c.Label, bc, t, i.Pos(), clauseProps(c, e))
 		o.Src = c.Text
 	}
+	if len(fr.spec.Exits) > 0 {
+		blk := i.Block()
+		env.lookup = func(name string) (binding, bool) { return fr.lookupLocal(name, blk, st) }
+		env.phiOf = func(loop int, name string) (binding, bool) {
+			for _, li := range fr.loops {
+				if li.ordinal != loop {
+					continue
+				}
+				for _, instr := range li.header.Instrs {
+					phi, ok := instr.(*ssa.Phi)
+					if !ok {
+						break
+					}
+					if phi.Comment == name {
+						if t, ok := fr.vals[phi]; ok {
+							return binding{term: t, typ: phi.Type()}, true
+						}
+					}
+				}
+			}
+			return binding{}, false
+		}
+		for _, c := range fr.spec.Exits {
+			t, err := env.boolExpr(c.Text)
+			if err != nil {
+				e.errf("%s:%d: %v", c.File, c.Line, err)
+				continue
+			}
+			o := fr.oblige("exit", c.Label, bc, t, i.Pos(), clauseProps(c, e))
+			o.Src = c.Text
+		}
+	}
 }
 
 func (fr *frame) bindResults(env *specEnv, fn *ssa.Function, spec *FuncSpec, rs []string) {
@@ -948,4 +992,39 @@ func (fr *frame) bindResults(env *specEnv, fn *ssa.Function, spec *FuncSpec, rs 
 			env.vars[spec.Results[k]] = b
 		}
 	}
+}
+
+// product registers a non-linear product u*v and emits sign and monotonicity lemma instances
+// (valid facts of integer arithmetic) against earlier products sharing a factor.
+func (e *Enc) product(u, v string) {
+	for _, p := range e.products {
+		if (p[0] == u && p[1] == v) || (p[0] == v && p[1] == u) {
+			return
+		}
+	}
+	e.assume(implies(and(app(">=", u, "0"), app(">=", v, "0")), app(">=", app("*", u, v), "0")))
+	e.assume(implies(and(app(">=", u, "1"), app(">=", v, "0")), app(">=", app("*", u, v), v)))
+	e.assume(implies(and(app(">=", v, "1"), app(">=", u, "0")), app(">=", app("*", u, v), u)))
+	for _, p := range e.products {
+		for a := 0; a < 2; a++ {
+			for b := 0; b < 2; b++ {
+				pc, po := p[a], p[1-a]
+				var nc, no string
+				if b == 0 {
+					nc, no = u, v
+				} else {
+					nc, no = v, u
+				}
+				if pc != nc {
+					continue
+				}
+				// common factor c = pc: (po <= no) => po*c <= no*c when c >= 0 ; and converse
+				e.assume(implies(and(app(">=", pc, "0"), app("<=", po, no)), app("<=", app("*", po, pc), app("*", no, pc))))
+				e.assume(implies(and(app(">=", pc, "0"), app("<=", no, po)), app("<=", app("*", no, pc), app("*", po, pc))))
+				e.assume(implies(and(app(">=", pc, "0"), app("<", po, no)), app("<=", app("+", app("*", po, pc), pc), app("*", no, pc))))
+				e.assume(implies(and(app(">=", pc, "0"), app("<", no, po)), app("<=", app("+", app("*", no, pc), pc), app("*", po, pc))))
+			}
+		}
+	}
+	e.products = append(e.products, [2]string{u, v})
 }
